@@ -56,6 +56,7 @@ def run_once(repo, force, exclude):
         if os.path.exists(cpath) and not force:
             res = json.load(open(cpath))
             res["cached"] = True
+            res["report"] = json.loads(json.dumps(report, default=str))     # verdicts are cached by text; the reasons are this run's
             res["seconds"] = round(time.time() - t0, 2)
             return res
         src = os.path.join(CACHE, f"Gen_{key}.lean")
